@@ -112,6 +112,10 @@ fn dom_bounded(t: &T, b: f64) -> Result<(), RErr> {
 
 /// Apply the operation in the reference model.
 pub fn apply_ref(op: &OpK, a: &[&T]) -> Result<T, RErr> {
+    if matches!(op, OpK::UMul | OpK::UAdd) && a[0].dims != a[1].dims {
+        // the harness's user operations are defined for equal shapes only
+        return Err(RErr::Refuse);
+    }
     let r = match op {
         OpK::Add | OpK::UAdd => a[0].zip(a[1], |x, y| x.add(y))?,
         OpK::Sub => a[0].zip(a[1], |x, y| x.sub(y))?,
